@@ -178,6 +178,9 @@ impl InstructionGenerator {
         // to be able to resume after an error at the last statement and then pop registers
         self.mark_statement_address();
         self.push(Instruction::PopRegisters, pos);
+        // NEXT is a statement of its own: if the increment fails, RESUME runs the
+        // increment again, it must not pop the registers a second time
+        self.mark_statement_address();
 
         // increment step
         self.load_counter(counter_var_name, pos);
